@@ -43,7 +43,7 @@ Definition ea (a ver r b st t v zv kind : int) (hbad stale : bool) (exs : list e
 Definition ee (a r id ts bad : int) : event := EExemplar (z a) (z r) (t3 id ts bad).
 Definition ec (a : int) (rolls : list int) : event := ECommit (z a) (lz rolls).
 Definition er (a : int) (rolls : list int) : event := ERollback (z a) (lz rolls).
-Definition et (mint : int) : event := ETruncate (z mint).
+Definition et (mint zv : int) : event := ETruncate (z mint) (z zv).
 Definition eq_ (w a b : int) : event := EQuery (z w) (z a) (z b).
 (* observations *)
 Definition oa (r e : int) (pe : list int) : obs := OAppend (z r) (z e) (lz pe).
@@ -54,7 +54,7 @@ Definition ors (next : int) (ser : list mser) (del : list (Z * Z)) (first cur : 
 Definition osn (cpidx : int) (cp : list record) (first cur : int) (segs : list (Z * record)) : obs :=
   OSnap (z cpidx) cp (z first) (z cur) segs.
 Definition oq (e : int) : obs := OQuery (z e).
-Definition mko (oow : int) (stz : bool) : opts := mkO (z oow) stz.
+Definition mko (oow : int) (stz inmem : bool) : opts := mkO (z oow) stz inmem.
 
 Record case := mkCase { c_id : Z; c_opts : opts; c_events : list event; c_obs : list obs }.
 
@@ -91,17 +91,28 @@ Definition ser_eqb (a b : list mser) : bool :=
 Definition del_eqb (a b : list (Z * Z)) : bool := list_eqb pair_eqb (sortk a) (sortk b).
 Definition lz_eqb (a b : list Z) : bool := list_eqb Z.eqb a b.
 
-Definition obs_eqb (a b : obs) : bool :=
+(* records of an in-memory checkpoint are written in Go map order: compared sorted by ref *)
+Definition canon_rec (r : record) : record :=
+  match r with
+  | RSeries l => RSeries (sortk l)
+  | RSamples k l => RSamples k (map (fun e => (fst e, fst (snd e), snd (snd e)))
+                                    (sortk (map (fun x : Z * Z * Z => (fst (fst x), (snd (fst x), snd x))) l)))
+  | _ => r
+  end.
+Definition cp_eqb (inmem : bool) (a b : list record) : bool :=
+  if inmem then list_eqb rec_eqb (map canon_rec a) (map canon_rec b) else list_eqb rec_eqb a b.
+
+Definition obs_eqb (inmem : bool) (a b : obs) : bool :=
   match a, b with
   | OAppend r e pe, OAppend r' e' pe' => (r =? r') && (e =? e') && lz_eqb pe pe'
   | OLog l, OLog l' => list_eqb srec_eqb l l'
   | OTrunc c cp f cu segs ser del, OTrunc c' cp' f' cu' segs' ser' del' =>
-      (c =? c') && list_eqb rec_eqb cp cp' && (f =? f') && (cu =? cu') && list_eqb srec_eqb segs segs' &&
+      (c =? c') && cp_eqb inmem cp cp' && (f =? f') && (cu =? cu') && list_eqb srec_eqb segs segs' &&
       ser_eqb ser ser' && del_eqb del del'
   | ORestart n ser del f cu, ORestart n' ser' del' f' cu' =>
       (n =? n') && ser_eqb ser ser' && del_eqb del del' && (f =? f') && (cu =? cu')
   | OSnap c cp f cu segs, OSnap c' cp' f' cu' segs' =>
-      (c =? c') && list_eqb rec_eqb cp cp' && (f =? f') && (cu =? cu') && list_eqb srec_eqb segs segs'
+      (c =? c') && cp_eqb inmem cp cp' && (f =? f') && (cu =? cu') && list_eqb srec_eqb segs segs'
   | OQuery e, OQuery e' => e =? e'
   | ONone, ONone => true
   | _, _ => false
@@ -109,7 +120,7 @@ Definition obs_eqb (a b : obs) : bool :=
 
 (* the model predicts every observation of the history *)
 Definition agree (c : case) : bool :=
-  list_eqb obs_eqb (snd (run_from (c_opts c) st_empty (c_events c))) (c_obs c).
+  list_eqb (obs_eqb (o_inmem (c_opts c))) (snd (run_from (c_opts c) st_empty (c_events c))) (c_obs c).
 
 (* ---- holds: the property on the implementation's output only ----
    State carried along the (event, observation) pairs:
@@ -174,6 +185,23 @@ Definition retained (h : hst) (recs : list record) : bool :=
                     else if memz (item_ref x) (h_dup h) then present (fst x) (snd x) recs
                     else logged (fst x) (snd x) recs) (h_com h).
 
+(* CheckpointFromInMemorySeries: the checkpoint is rebuilt from memory, so what DB.truncate must keep
+   is, for every series that is still alive, a series record followed by a sample with the series' last
+   timestamp (the literal retention statement is refuted for this option: C48_inmemory_refuted) *)
+Fixpoint last_from (rl : list (Z * Z)) (seen : list Z) (b t : Z) (recs : list record) : bool :=
+  match recs with
+  | [] => false
+  | R :: rest =>
+      (match R with
+       | RSamples _ l => existsb (fun y => memz (fst (fst y)) seen && (snd (fst y) =? t) &&
+                                           match lookup (fst (fst y)) rl with Some b' => b' =? b | None => false end) l
+       | _ => false end) || last_from rl (map fst (series_of_rec R) ++ seen) b t rest
+  end.
+(* every live series with a positive last timestamp: a sample with that timestamp, of a ref of the series'
+   label set, after a series record of that ref *)
+Definition retained_inmem (rl : list (Z * Z)) (ser : list mser) (recs : list record) : bool :=
+  forallb (fun s => (s_last s <=? 0) || last_from rl [] (s_lab s) (s_last s) recs) ser.
+
 Definition has_data (recs : list record) : bool :=
   existsb (fun r => match r with RSamples _ _ | RExemplars _ => true | _ => false end) recs.
 
@@ -226,20 +254,24 @@ Definition hstep (o : opts) (h : hst) (eo : event * obs) : hst :=
       (* a rolled-back appender writes series records only *)
       mkH (h_wal h ++ recs) (remove_key a (h_acc h)) (h_com h) (h_g h) (note_series (h_rl h) recs) (h_lw h)
           (h_off h) (h_dup h) (h_ok h && negb (has_data recs))
-  | (ETruncate mint, OTrunc cpidx cp first cur segs ser del) =>
+  | (ETruncate mint _, OTrunc cpidx cp first cur segs ser del) =>
       let g := Z.max (h_g h) mint in
       let recs := snap_records cpidx cp segs in
       let com := filter (fun x => g <=? item_time x) (h_com h) in
       let h1 := mkH recs (h_acc h) com g (h_rl h)
                     (filter (fun e => existsb (fun s => s_lab s =? fst e) ser) (h_lw h))
                     (h_off h) (h_dup h) (h_ok h) in
-      mkH recs (h_acc h) com g (h_rl h1) (h_lw h1) (h_off h) (h_dup h) (h_ok h && retained h1 recs)
+      mkH recs (h_acc h) com g (h_rl h1) (h_lw h1) (h_off h) (h_dup h)
+          (h_ok h && (if o_inmem o && (0 <=? cpidx) then retained_inmem (note_series (h_rl h) recs) ser recs else retained h1 recs))
   | (ERestart, ORestart _ _ _ _ _) =>
-      mkH (h_wal h) [] (h_com h) (h_g h) (h_rl h) (h_lw h) []
+      (* the replayed lastTs comes from the samples whose ref still has a series record in the WAL: the
+         written-timestamp bound is rebuilt from exactly those *)
+      mkH (h_wal h) [] (h_com h) (h_g h) (h_rl h) (note_written (note_series [] (h_wal h)) [] (h_wal h)) []
           (dup_refs [] (flat_map series_of_rec (h_wal h)) ++ h_dup h) (h_ok h)
   | (ESnap, OSnap cpidx cp first cur segs) =>
       let recs := snap_records cpidx cp segs in
-      mkH recs (h_acc h) (h_com h) (h_g h) (h_rl h) (h_lw h) (h_off h) (h_dup h) (h_ok h && retained h recs)
+      mkH recs (h_acc h) (h_com h) (h_g h) (h_rl h) (h_lw h) (h_off h) (h_dup h)
+          (h_ok h && ((o_inmem o && (0 <=? cpidx)) || retained h recs))
   | (EQuery _ _ _, OQuery e) =>
       mkH (h_wal h) (h_acc h) (h_com h) (h_g h) (h_rl h) (h_lw h) (h_off h) (h_dup h) (h_ok h && (e =? E_UNSUPPORTED))
   | (ERoll, ONone) => h
